@@ -208,6 +208,60 @@ def check_deep(case, acc):
     acc.tag("deep_tree_cases")
 
 
+WIDE_OPS = ["detach-last", "detach-first", "attach-new", "reattach", "rotate", "read-child"]
+
+
+def check_wide_sparse(case, acc):
+    """A node with 9-12 children whose `children` was read once; then a short history of changes at its ends WITHOUT reading
+    its children in between (only the attributes of the nodes being moved); at the end every attribute of every node is
+    compared with its definition. What is remembered from an earlier read must not survive changes it did not see."""
+    make = nodes.factory(case["cls"])
+    top = make(0)
+    kids = []
+    for i in range(case["width"]):
+        kid = make(1 + i)
+        kid.parent = top
+        kids.append(kid)
+    extra = make(500)
+    extra.parent = kids[2]
+    everything = [top] + kids + [extra]
+    _ = top.children, top.leaves, kids[-1].siblings  # the one early read
+    model = list(kids)
+    detached = []
+    spare = 600
+    for op in case["ops"]:
+        if op == "detach-last" and model:
+            node = model.pop()
+            node.parent = None
+            detached.append(node)
+        elif op == "detach-first" and model:
+            node = model.pop(0)
+            node.parent = None
+            detached.append(node)
+        elif op == "attach-new":
+            node = make(spare)
+            spare += 1
+            node.parent = top
+            model.append(node)
+            everything.append(node)
+        elif op == "reattach" and detached:
+            node = detached.pop(0)
+            node.parent = top
+            model.append(node)
+        elif op == "rotate" and len(model) >= 2:
+            model = model[1:] + model[:1]
+            top.children = model
+        elif op == "read-child" and model:
+            _ = model[-1].parent, model[-1].depth  # reads that do not involve the parent's children
+    got = top.children
+    if len(got) != len(model) or any(a is not b for a, b in zip(got, model)):
+        raise Violation("children", "%s node with %d children after %s without reads in between: children are %s, the links say %s" % (case["cls"], case["width"], case["ops"], [str(c.name) for c in got], [str(c.name) for c in model]))
+    labels = forest.Labels(everything)
+    check_all([n for n in everything], labels, acc, triples=False)
+    acc.nontrivial(True)
+    acc.tag("wide_node_histories_without_reads_in_between")
+
+
 def check_deep_bushy(case, acc):
     """The downward-recursive attributes on a deep AND bushy tree (every spine node has a leaf as first child and the next
     spine node as second): the interpreter's recursion limit is a legitimate way out (RecursionError), a wrong value or a
@@ -314,6 +368,8 @@ def check_case(case, acc):
         return check_deep(case, acc)
     if case["kind"] == "deep-bushy":
         return check_deep_bushy(case, acc)
+    if case["kind"] == "wide-sparse":
+        return check_wide_sparse(case, acc)
     if case["kind"] == "wide":
         return check_wide(case, acc)
     make = nodes.factory(case["cls"])
@@ -403,6 +459,7 @@ def plan(tier, seed):
     tasks += [{"engine": "hooked", "cls": cls, "n": n} for cls in ("HNM", "HLM") for n in (3, 4)]
     tasks += [{"engine": "wide", "width": w, "cls": c, "via": v} for w in ((300, 700) if tier == "quick" else (257, 300, 700, 2000)) for c, v in (("Node", "parent"), ("SlotLM", "children"), ("AnyNode", "children"))]
     tasks += [{"engine": "deep", "depth": d, "cls": c} for d in ((700, 1500) if tier == "quick" else (300, 700, 1500, 3000)) for c in ("Node", "SlotLM", "AnyNode")]
+    tasks += [{"engine": "wide-sparse", "cls": c, "width": w, "length": 4 if tier == "quick" else 5} for c in ("SlotLM", "DictLM", "Node") for w in (9, 12)]
     tasks += [{"engine": "deep-bushy", "factor": f, "cls": c} for f in ((0.6, 1.3) if tier == "quick" else (0.3, 0.6, 0.9, 1.3, 2.5)) for c in ("Node", "SlotLM")]
     return tasks
 
@@ -422,6 +479,10 @@ def run_task(task, acc):
         if exc is not None:
             acc.add_violation(case, exc)
         return
+    if task["engine"] == "wide-sparse":
+        import itertools
+
+        return acc.run_enum(check_case, ({"kind": "wide-sparse", "cls": task["cls"], "width": task["width"], "ops": list(ops)} for ops in itertools.product(WIDE_OPS, repeat=task["length"])))
     if task["engine"] == "deep-bushy":
         case = {"kind": "deep-bushy", "factor": task["factor"], "cls": task["cls"]}
         exc = acc.evaluate(check_case, case, enumerated=False)
